@@ -10,6 +10,7 @@
 // and picks the next thread from a choice source. Blocking is exact, so "no
 // runnable thread" is a detected quiescence/deadlock, not a timeout.
 #pragma once
+#include <algorithm>
 #include <atomic>
 #include <cerrno>
 #include <climits>
@@ -91,6 +92,9 @@ struct Scheduler
     std::function<int(int nopts, bool can_continue)> fallback;
     std::vector<Decision> trace;
     int preemptions = 0, preemption_bound = INT_MAX;
+    // POSIX lets pthread_cond_wait return without a signal. Each execution may inject up to
+    // spurious_bound such wake-ups, as one more option at scheduling points.
+    int spurious = 0, spurious_bound = 0;
     long steps = 0, step_limit = 20000;
 
     // hooks
@@ -167,39 +171,61 @@ inline bool enabled(const Thread &t)
 inline int pick_next(int self)
 {
     Scheduler &s = S();
-    std::vector<int> others;
-    bool self_enabled = self >= 0 && enabled(*s.threads[self]);
-    for (auto *t : s.threads)
-        if (t->id != self && enabled(*t))
-            others.push_back(t->id);
-    std::vector<int> options;
-    if (self_enabled)
+    for (;;)
     {
-        options.push_back(self);
-        if (s.preemptions < s.preemption_bound)
-            for (int o : others)
-                options.push_back(o);
+        std::vector<int> others;
+        bool self_enabled = self >= 0 && enabled(*s.threads[self]);
+        for (auto *t : s.threads)
+            if (t->id != self && enabled(*t))
+                others.push_back(t->id);
+        // options: thread ids >= 0; a spurious wake-up of parked thread w is encoded as -(w + 2)
+        std::vector<int> options;
+        if (self_enabled)
+        {
+            options.push_back(self);
+            if (s.preemptions < s.preemption_bound)
+                for (int o : others)
+                    options.push_back(o);
+        }
+        else
+            options = others;
+        if (s.spurious < s.spurious_bound)
+            for (auto *t : s.threads)
+                if (t->state == T_COND_WAIT)
+                    options.push_back(-(t->id + 2));
+        if (options.empty() || (options[0] < -1 && !self_enabled && others.empty() && false))
+            return -1;
+        // only spurious wake-ups left and nobody runnable: taking one is still a legal continuation
+        int choice = 0;
+        if (options.size() > 1)
+        {
+            size_t at = s.trace.size();
+            if (at < s.prefix.size())
+                choice = s.prefix[at];
+            else if (s.fallback)
+                choice = s.fallback((int)options.size(), self_enabled);
+            if (choice < 0 || choice >= (int)options.size())
+                choice = 0;
+            s.trace.push_back(Decision{(int)options.size(), choice});
+        }
+        int next = options[choice];
+        if (next <= -2)
+        {
+            // spurious return of pthread_cond_wait: the waiter leaves the wait set and competes
+            // for its mutex again; then decide again who runs
+            int w = -(next + 2);
+            Thread *wt = s.threads[w];
+            Cond &cc = s.conds[wt->obj];
+            cc.waiters.erase(std::remove(cc.waiters.begin(), cc.waiters.end(), w), cc.waiters.end());
+            wt->state = T_WANT_MUTEX;
+            wt->obj = wt->cond_mutex;
+            s.spurious++;
+            continue;
+        }
+        if (self_enabled && next != self)
+            s.preemptions++;
+        return next;
     }
-    else
-        options = others;
-    if (options.empty())
-        return -1;
-    int choice = 0;
-    if (options.size() > 1)
-    {
-        size_t at = s.trace.size();
-        if (at < s.prefix.size())
-            choice = s.prefix[at];
-        else if (s.fallback)
-            choice = s.fallback((int)options.size(), self_enabled);
-        if (choice < 0 || choice >= (int)options.size())
-            choice = 0;
-        s.trace.push_back(Decision{(int)options.size(), choice});
-    }
-    int next = options[choice];
-    if (self_enabled && next != self)
-        s.preemptions++;
-    return next;
 }
 
 // The running thread reaches a scheduling point (its state says what it needs next).
@@ -273,6 +299,7 @@ inline void reset()
     s.current = -1;
     s.trace.clear();
     s.preemptions = 0;
+    s.spurious = 0;
     s.steps = 0;
     s.violation_sig.clear();
     s.violation_msg.clear();
